@@ -1163,7 +1163,7 @@ func r18d(c *core.Ctx) {
 			core.EachInstr(fn, func(_ *ssa.BasicBlock, _ int, in ssa.Instruction) {
 				switch x := in.(type) {
 				case *ssa.Store:
-					if fa, ok := x.Addr.(*ssa.FieldAddr); ok && core.FieldAddrRef(fa).Name == f.field && core.FieldAddrRef(fa).Struct != nil && core.FieldAddrRef(fa).Struct.Obj().Name() == "router" {
+					if fa, ok := x.Addr.(*ssa.FieldAddr); ok && core.FieldAddrRef(fa).Name == f.field && core.FieldAddrRef(fa).Struct != nil && core.StructName(core.FieldAddrRef(fa).Struct) == "router" {
 						found = true
 					}
 				case *ssa.MapUpdate:
